@@ -69,7 +69,8 @@ pub fn r_hash<X: Hash + ?Sized>(a: &X, b: &X, r: &mut Res) {
     r.hb = Some(hrec(b));
 }
 pub fn r_dbg<X: Debug + ?Sized>(a: &X, r: &mut Res) {
-    r.dbg = Some(format!("{:?}", a));
+    // the caller's format spec must reach the value: alternate, width/precision, sign, hex
+    r.dbg = Some(format!("{:?} | {:#?} | {:12.3?} | {:+?} | {:#x?} | {:<6?}", a, a, a, a, a, a));
 }
 
 /// internal consistency of one pair's results (oracle iii); `same_alloc_nan`: the NaN licence applies
